@@ -142,12 +142,17 @@ pub fn c07_claims(m: &mut Mon, ctx: &StepCtx, stats: &mut Stats, out: &mut Vec<V
             for ((a, b), v) in &pre_req {
                 if *a == signer && !post_req.contains_key(&(a.clone(), *b)) {
                     explained.insert((a.clone(), *b));
+                    // a claim may disappear only because its released batch was paid
+                    let released = post.history.iter().any(|h| h.batch_id == *b && h.released);
+                    if !released {
+                        viol(out, "C07", "claims_removed_only_by_withdrawal_of_released_batch", ctx.idx, "hub.WithdrawUnbonded:unreleased_claim_removed", format!("{}'s claim {:?} on batch {} was removed although that batch is not released", a, v, b));
+                        continue;
+                    }
                     if let Some(l) = m.claims.remove(&(a.clone(), *b)) {
                         let p = m.batch_paid.entry(*b).or_insert((0, 0));
                         p.0 += l.0;
                         p.1 += l.1;
                     }
-                    let _ = v;
                 }
             }
         }
